@@ -2,6 +2,7 @@
 
 from __future__ import annotations
 
+import asyncio
 import gc
 import json
 
@@ -51,7 +52,7 @@ def gen(R):
     nctx = R.int(1, 2)
     for _ in range(R.int(3, 14)):
         ctx = R.choice(CTXS[:nctx])
-        k = R.weighted([(6, "define"), (2, "del"), (1, "rebind"), (3, "cont_add"), (2, "cont_remove"), (1, "reload"), (1, "delete_file"),
+        k = R.weighted([(6, "define"), (2, "del"), (1, "rebind"), (3, "cont_add"), (2, "cont_remove"), (1, "reload"), (1, "reload_fast"), (1, "delete_file"),
                         (4, "occ_state"), (4, "occ_event"), (3, "occ_time"), (2, "occ_service")])
         if k == "define":
             g += 1
@@ -65,10 +66,10 @@ def gen(R):
             ops.append({"op": "cont_add", "ctx": ctx, "where": R.choice(["lst", "dct_k1", "dct_k2"]), "gen": g})
         elif k == "cont_remove":
             ops.append({"op": "cont_remove", "ctx": ctx, "how": R.choice(["pop", "del_k1", "clear_lst", "clear_dct"])})
-        elif k == "reload":
-            g += 1
+        elif k in ("reload", "reload_fast"):
+            g += 2
             kinds = [x for x in KINDS if R.bool()] or ["state"]
-            ops.append({"op": "reload", "ctx": ctx, "gen": g, "kinds": kinds, "extra": R.choice([[], ["startup"], ["shutdown"]])})
+            ops.append({"op": k, "ctx": ctx, "gen": g, "kinds": kinds, "extra": R.choice([[], ["startup"], ["shutdown"]]) if k == "reload" else []})
         elif k == "delete_file":
             ops.append({"op": "delete_file", "ctx": ctx})
         else:
@@ -179,7 +180,7 @@ async def execute(case):
                 else:
                     m.dct[ctx] = {}
                     exc = await run_in(ctx, "dct.clear()")
-            elif k in ("reload", "delete_file"):
+            elif k in ("reload", "reload_fast", "delete_file"):
                 ctx = op["ctx"]
                 base = f"{ctx.split('.')[1]}.py"
                 path = f"{it.dir}/pyscript/{base}"
@@ -188,10 +189,21 @@ async def execute(case):
                 for n, f in m.funcs[ctx].items():
                     if "shutdown" in f["extra"]:
                         exp_runs.append([ctx, n, f["gen"], "time", "shutdown"])
-                if k == "reload":
+                if k == "reload_fast":
+                    # first version of the file, reload requested but not awaited: its triggers are still starting
+                    # when the second reload replaces it
+                    src0 = f"CTX = {ctx!r}\n" + FACTORY + "\n" + fn_src(ctx, "f1", op["gen"] - 1, op["kinds"], []) + "\n"
+                    with open(path, "w") as fh:
+                        fh.write(src0)
+                    os.utime(path, (1_700_000_000 + 10 * i, 1_700_000_000 + 10 * i))
+                    await it.hass.services.async_call("pyscript", "reload", {}, blocking=False)
+                    for _ in range(op["gen"] % 4):
+                        await asyncio.sleep(0)
+                if k in ("reload", "reload_fast"):
                     src = f"CTX = {ctx!r}\n" + FACTORY + "\n" + fn_src(ctx, "f1", op["gen"], op["kinds"], op["extra"]) + "\n"
                     with open(path, "w") as fh:
                         fh.write(src)
+                    os.utime(path, (1_700_000_005 + 10 * i, 1_700_000_005 + 10 * i))
                     m.funcs[ctx] = {"f1": {"gen": op["gen"], "kinds": op["kinds"], "extra": op["extra"]}}
                     m.bound[ctx] = {"f1"}
                     m.loaded[ctx] = True
@@ -332,7 +344,7 @@ class C09(ModelCheck):
         seen_deact = False
         nt = False
         for o in case["ops"]:
-            if o["op"] in ("define", "del", "rebind", "cont_remove", "reload", "delete_file"):
+            if o["op"] in ("define", "del", "rebind", "cont_remove", "reload", "reload_fast", "delete_file"):
                 seen_deact = True
             elif o["op"].startswith("occ") and seen_deact:
                 nt = True
